@@ -9,6 +9,7 @@ import (
 	"os"
 	"sort"
 	"strconv"
+	"strings"
 )
 
 // Case is one correspondence case: checker id followed by integers.
@@ -19,9 +20,17 @@ type Case struct {
 
 func NewCase(id int) *Case { return &Case{id: id, b: strconv.AppendInt(nil, int64(id), 10)} }
 
-func (c *Case) I(v int64) *Case   { c.b = append(c.b, ' '); c.b = strconv.AppendInt(c.b, v, 10); return c }
-func (c *Case) N(v int) *Case     { return c.I(int64(v)) }
-func (c *Case) U(v uint64) *Case  { c.b = append(c.b, ' '); c.b = strconv.AppendUint(c.b, v, 10); return c }
+func (c *Case) I(v int64) *Case {
+	c.b = append(c.b, ' ')
+	c.b = strconv.AppendInt(c.b, v, 10)
+	return c
+}
+func (c *Case) N(v int) *Case { return c.I(int64(v)) }
+func (c *Case) U(v uint64) *Case {
+	c.b = append(c.b, ' ')
+	c.b = strconv.AppendUint(c.b, v, 10)
+	return c
+}
 func (c *Case) B(v bool) *Case {
 	if v {
 		return c.I(1)
@@ -115,8 +124,8 @@ func (t *Trace) Emit(c *Case, strata ...string) {
 		t.sample = append(t.sample, s)
 	}
 }
-func (t *Trace) Stat(s string)          { t.stats[s]++ }
-func (t *Trace) StatN(s string, n int)  { t.stats[s] += n }
+func (t *Trace) Stat(s string)         { t.stats[s]++ }
+func (t *Trace) StatN(s string, n int) { t.stats[s] += n }
 
 func (t *Trace) Close(statsPath string) {
 	t.w.Flush()
@@ -191,3 +200,7 @@ func catchPanic(f func()) (panicked bool) {
 	f()
 	return false
 }
+
+func contains(s, sub string) bool { return strings.Contains(s, sub) }
+func f64bits(x float64) uint64    { return math.Float64bits(x) }
+func logf(x float64) float64      { return math.Log(x) }
